@@ -83,8 +83,26 @@ impl System for SnapSys {
 					let fl = if positional { "positional" } else { "named" };
 					match catch(|| n.0.a.via_tokens(positional)) {
 						Ok(Ok(c)) => {
+							// the same state text is the usual case; a restored instance that is REPRESENTED differently
+							// (a ring buffer written in canonical rotation, say) is judged by what it does: every
+							// continuation of up to 3 inputs, outputs compared bit for bit
 							if c.debug_key() != n.0.a.debug_key() {
-								return Step::Violation(Failure::new(format!("{name}/restore/state-differs[{fl}-format]"), format!("original {} restored {}", n.0.a.debug_key(), c.debug_key())));
+								let mut layer: Vec<(Box<dyn Subject>, Box<dyn Subject>)> = vec![(n.0.a.boxed_clone(), c)];
+								for d in 0..3 {
+									let mut next = vec![];
+									for (x, y) in &layer {
+										for i in &self.alphabet {
+											let (mut x2, mut y2) = (x.boxed_clone(), y.boxed_clone());
+											let (Ok(ox), oy) = (catch(|| x2.next(i)), catch(|| y2.next(i))) else { continue };
+											match oy {
+												Ok(oy) if oy.same_bits(&ox) => next.push((x2, y2)),
+												Ok(oy) => return Step::Violation(Failure::new(format!("{name}/restore/behaviour-differs[{fl}-format]"), format!("original {} restored differently; {} steps later: original {} vs restored {}", n.0.a.debug_key(), d + 1, ox.show(), oy.show()))),
+												Err(p) => return Step::Violation(Failure::new(format!("{name}/restored/panic[{fl}-format]"), p.msg)),
+											}
+										}
+									}
+									layer = next;
+								}
 							}
 						}
 						Ok(Err(e)) => return Step::Violation(Failure::new(format!("{name}/restore/rejected[{fl}-format]"), format!("own snapshot rejected: {e}"))),
@@ -194,8 +212,24 @@ impl System for ISnapSys {
 					let fl = if positional { "positional" } else { "named" };
 					match catch(|| n.0.a.via_tokens(positional)) {
 						Ok(Ok(c)) => {
+							// (as for the methods: a different representation is judged by behaviour)
 							if c.debug_key() != n.0.a.debug_key() {
-								return Step::Violation(Failure::new(format!("{name}/restore/state-differs[{fl}-format]"), format!("original {} restored {}", n.0.a.debug_key(), c.debug_key())));
+								let mut layer: Vec<(Box<dyn IndInst>, Box<dyn IndInst>)> = vec![(n.0.a.boxed_clone(), c)];
+								for d in 0..3 {
+									let mut next = vec![];
+									for (x, y) in &layer {
+										for i in &self.alphabet {
+											let (mut x2, mut y2) = (x.boxed_clone(), y.boxed_clone());
+											let (Ok(ox), oy) = (catch(|| x2.next(i)), catch(|| y2.next(i))) else { continue };
+											match oy {
+												Ok(oy) if rbits(&oy) == rbits(&ox) => next.push((x2, y2)),
+												Ok(oy) => return Step::Violation(Failure::new(format!("{name}/restore/behaviour-differs[{fl}-format]"), format!("restored differently; {} steps later: original {ox:?} vs restored {oy:?}", d + 1))),
+												Err(p) => return Step::Violation(Failure::new(format!("{name}/restored/panic[{fl}-format]"), p.msg)),
+											}
+										}
+									}
+									layer = next;
+								}
 							}
 						}
 						Ok(Err(e)) => return Step::Violation(Failure::new(format!("{name}/restore/rejected[{fl}-format]"), format!("own snapshot rejected: {e}"))),
